@@ -227,7 +227,7 @@ theorem pendingIdentified_filter_out (S : Key → Bool) (k : Key) : ∀ (P P' : 
       cases he2 : e.2 with
       | required => rw [he2] at h; simpa using ih P' hcl' h
       | excluded => rw [he2] at h; cases h
-    · rw [if_neg hek, bind_eq_ok] at h
+    · rw [if_neg hek, bind_eq_ok_g] at h
       obtain ⟨r, hr, h⟩ := h
       cases h
       rw [pfilter_cons, pfilter_cons, ih r hcl' hr]
@@ -244,7 +244,7 @@ theorem pendingIdentified_sub (k : Key) : ∀ (P P' : List (Key × CType)), pend
     · cases hx2 : x.2 with
       | required => rw [hx2] at h; exact List.mem_cons_of_mem _ (ih P' h e he)
       | excluded => rw [hx2] at h; cases h
-    · rw [bind_eq_ok] at h
+    · rw [bind_eq_ok_g] at h
       obtain ⟨r, hr, h⟩ := h
       cases h
       rcases List.mem_cons.mp he with rfl | he
